@@ -153,6 +153,7 @@ EXCL_TYPES = [
     ("Aux", "named-struct", (), "type Aux struct {\n\tQ int32\n\tR *string\n}\n\n"),
     ("*Aux", "named-struct-ptr", (), "type Aux struct {\n\tQ int32\n\tR *string\n}\n\n"),
     ("[]Aux", "named-struct-slice", (), "type Aux struct {\n\tQ int32\n\tR *string\n}\n\n"),
+    ("aux1", "embedded-unexported-struct", (), "type aux1 struct {\n\tRev int32\n\tBy  string\n}\n\n"),
     ("time.Time", "qualified", ("time",), ""),
     ("*time.Duration", "qualified", ("time",), ""),
 ]
@@ -208,7 +209,7 @@ def replace_at(fields, path, fn):
 def c14_pairs(D, tier, seed):
     rnd = random.Random(1000003 * seed + (17 if tier == "thorough" else 5))
     bases = healthy_bases(D)
-    n = 400 if tier == "thorough" else 48
+    n = 400 if tier == "thorough" else 52
     hows = EXCL_HOW_THOROUGH if tier == "thorough" else EXCL_HOW_QUICK
     pairs = []
     for k in range(n):
@@ -223,6 +224,10 @@ def c14_pairs(D, tier, seed):
                 # the first len(EXCL_TYPES) pairs walk through every excluded type once
                 gt, cls, imp, ax = EXCL_TYPES[k % len(EXCL_TYPES)] if (k < len(EXCL_TYPES) and j == 0) else rnd.choice(EXCL_TYPES)
                 how = rnd.choice(hows)
+                if cls == "embedded-unexported-struct":
+                    how = "embedded-unexported"
+                    if any("embedded-unexported" in d for d in desc):
+                        continue  # one embedded aux1 per program (a second one would be a duplicate field)
                 ss = structs_of(dec)
                 path, fl = ss[rnd.randrange(len(ss))]
                 pos = rnd.randint(0, len(fl))
@@ -241,6 +246,18 @@ def c14_pairs(D, tier, seed):
             dec = replace_at(dec, path, lambda l, i=i, j=j: l[:i] + [("embedded", l[i:j])] + l[j:])
             desc.append("embedded:depth%d:fields%d-%d-of-%d" % (len(path), i, j, len(fl)))
         pairs.append(dict(base=base, dec=dec, desc=desc, imports=tuple(sorted(imports)), aux=aux))
+    # type reuse: one struct type both embedded in the root and used as the type of a group field (and of a second group)
+    k = 0
+    for gr in lab.REPS:
+        for (ra, rb) in (("r", "o"), ("o", "r"), ("r", "r"), ("p", "r")):
+            if tier != "thorough" and k >= 4:
+                break
+            k += 1
+            inner = [("leaf", ra, "N1", "n1", "int32"), ("leaf", rb, "N2", "", "string")]
+            base = list(inner) + [("group", gr, list(inner), "N3", "n3"), ("leaf", "r", "N4", "n4", "int64"), ("group", "o", list(inner), "N5", "")]
+            dec = [("embedded", list(inner), "Shared"), ("groupref", gr, list(inner), "N3", "n3", "Shared"), ("leaf", "r", "N4", "n4", "int64"),
+                   ("groupref", "o", list(inner), "N5", "", "Shared")]
+            pairs.append(dict(base=base, dec=dec, desc=["embedded:depth0:type-reused-as-group-%s" % gr], imports=(), aux=""))
     return pairs
 
 
@@ -385,7 +402,7 @@ def register(PROPS):
         prepare=c14_prepare, post=c14_post, replay_env=c14_replay_env,
         stages=[dict(test="TestC14", kind="enum", quick=1, thorough=1, timeout_thorough=5400)],
         replay="TestReplayC14",
-        rule="program pairs (48 quick / 400 thorough): the first 21 pairs insert one excluded field of each Go type class (8 primitives, other basic types, pointer, slice, array, map, chan, func with "
+        rule="program pairs (56 quick / 412 thorough): the first 22 pairs insert one excluded field of each Go type class (incl. an embedded struct of unexported type); the last 4/12 pairs reuse one struct type both embedded in the root and as the type of two group fields; (8 primitives, other basic types, pointer, slice, array, map, chan, func with "
              "unnamed/named parameters and results, anonymous structs with exported fields, interfaces, named struct / pointer / slice of it, qualified types) into a healthy base; the rest draw 1..4 excluded "
              "fields (how in {unexported, dash-tagged} quick; + {_x, non-ASCII lower-case} thorough) at random structs/positions and/or replace a random contiguous run of fields of a random struct by an "
              "embedded struct. Oracle: decorated program generates deterministically and compiles; for up to 60 structurally distinct records x 3 workloads the bytes written are identical to the base's; "
